@@ -13,7 +13,7 @@ fn mdiff<S: BaseFloat>(a: &RM<S>, b: &RM<S>) -> S {
 }
 
 /// the statement's predicate for a 4x4 view matrix
-fn check_view<S: BaseFloat + std::fmt::Debug>(m: &Matrix4<S>, eye: Point3<S>, d: Vector3<S>, dlen: S, up: Vector3<S>, rh: bool, tol: S, who: &str) -> Result<(), Outcome> {
+fn check_view<S: BaseFloat + std::fmt::Debug>(m: &Matrix4<S>, eye: Point3<S>, d: Vector3<S>, dlen: S, up: Vector3<S>, uplen: S, rh: bool, tol: S, who: &str) -> Result<(), Outcome> {
     let t = m.rm();
     let r = t.block(3);
     let (o, z) = (S::one(), S::zero());
@@ -24,29 +24,40 @@ fn check_view<S: BaseFloat + std::fmt::Debug>(m: &Matrix4<S>, eye: Point3<S>, d:
     }
     ensure_r!(mdiff(&r.mul(&r.transpose()), &RM::ident(3)) <= tol, "not-orthonormal", "{}: R R^T != I: {:?}", who, r);
     ensure_r!((r.det() - o).abs() <= tol, "det", "{}: det R = {:?}", who, r.det());
+    // every clause is scale-free: tolerances are relative to |eye|, |d|, |up| (uplen is 1 in the exact tier)
     let e = *m * eye.to_homogeneous();
-    ensure_r!(e.x.abs() <= tol && e.y.abs() <= tol && e.z.abs() <= tol && e.w == o, "eye-not-to-origin", "{}: M eye = {:?}", who, e);
+    let te = tol * (o + eye.x.abs() + eye.y.abs() + eye.z.abs());
+    ensure_r!(e.x.abs() <= te && e.y.abs() <= te && e.z.abs() <= te && e.w == o, "eye-not-to-origin", "{}: M eye = {:?}", who, e);
     let rd = r.mulv(&[d.x, d.y, d.z]);
     let wz = if rh { -dlen } else { dlen };
-    ensure_r!(rd[0].abs() <= tol && rd[1].abs() <= tol && (rd[2] - wz).abs() <= tol, "direction-axis",
+    let td = tol * dlen;
+    ensure_r!(rd[0].abs() <= td && rd[1].abs() <= td && (rd[2] - wz).abs() <= td, "direction-axis",
         "{}: R d = {:?}, expected (0,0,{:?}) for the {}-handed variant", who, rd, wz, if rh { "right" } else { "left" });
     let ru = r.mulv(&[up.x, up.y, up.z]);
-    ensure_r!(ru[0].abs() <= tol && ru[1] >= -tol, "up-half-plane", "{}: R up = {:?}, expected x = 0, y >= 0", who, ru);
+    let tu = tol * uplen;
+    ensure_r!(ru[0].abs() <= tu && ru[1] >= -tu, "up-half-plane", "{}: R up = {:?} (|up| = {:?}), expected x = 0, y >= 0", who, ru, uplen);
     Ok(())
 }
 
 fn agree<S: BaseFloat + std::fmt::Debug>(a: &RM<S>, b: &RM<S>, tol: S, sig: &'static str, what: &str) -> Result<(), Outcome> {
-    ensure_r!(mdiff(a, b) <= tol, sig, "{}: {:?} vs {:?}", what, a, b);
+    // rotation entries are at most 1 in magnitude; the translation column scales with |eye|
+    let mut big = S::one();
+    for c in 0..a.n {
+        for r in 0..a.n {
+            big = big.max(b.e[c][r].abs());
+        }
+    }
+    ensure_r!(mdiff(a, b) <= tol * big, sig, "{}: {:?} vs {:?}", what, a, b);
     Ok(())
 }
 
 #[allow(deprecated)]
-fn all_entry_points<S: BaseFloat + std::fmt::Debug>(eye: Point3<S>, d: Vector3<S>, dlen: S, up: Vector3<S>, tol: S) -> Result<(), Outcome> {
+fn all_entry_points<S: BaseFloat + std::fmt::Debug>(eye: Point3<S>, d: Vector3<S>, dlen: S, up: Vector3<S>, uplen: S, tol: S) -> Result<(), Outcome> {
     let center = eye + d;
     let to_rh = Matrix4::look_to_rh(eye, d, up);
     let to_lh = Matrix4::look_to_lh(eye, d, up);
-    check_view(&to_rh, eye, d, dlen, up, true, tol, "Matrix4::look_to_rh")?;
-    check_view(&to_lh, eye, d, dlen, up, false, tol, "Matrix4::look_to_lh")?;
+    check_view(&to_rh, eye, d, dlen, up, uplen, true, tol, "Matrix4::look_to_rh")?;
+    check_view(&to_lh, eye, d, dlen, up, uplen, false, tol, "Matrix4::look_to_lh")?;
     agree(&Matrix4::look_at_rh(eye, center, up).rm(), &to_rh.rm(), tol, "look_at-vs-look_to", "Matrix4::look_at_rh(eye, eye+d, up) vs look_to_rh(eye, d, up)")?;
     agree(&Matrix4::look_at_lh(eye, center, up).rm(), &to_lh.rm(), tol, "look_at-vs-look_to", "Matrix4::look_at_lh(eye, eye+d, up) vs look_to_lh(eye, d, up)")?;
     agree(&Matrix4::look_at(eye, center, up).rm(), &to_rh.rm(), tol, "deprecated-look_at", "Matrix4::look_at (deprecated) vs look_at_rh")?;
@@ -80,9 +91,10 @@ fn all_entry_points<S: BaseFloat + std::fmt::Debug>(eye: Point3<S>, d: Vector3<S
     agree(&Matrix4::from(dbr).rm(), &to_rh.rm(), tol, "transform-decomposed-basis3", "Decomposed<_,Basis3>::look_at_rh")?;
     agree(&Matrix4::from(dbl).rm(), &to_lh.rm(), tol, "transform-decomposed-basis3", "Decomposed<_,Basis3>::look_at_lh")?;
     let e0 = dqr.transform_point(eye);
-    ensure_r!(e0.x.abs() <= tol && e0.y.abs() <= tol && e0.z.abs() <= tol, "decomposed-eye-not-to-origin", "Decomposed::look_at_rh sends the eye to {:?}", e0);
+    let te = tol * (S::one() + eye.x.abs() + eye.y.abs() + eye.z.abs());
+    ensure_r!(e0.x.abs() <= te && e0.y.abs() <= te && e0.z.abs() <= te, "decomposed-eye-not-to-origin", "Decomposed::look_at_rh sends the eye to {:?}", e0);
     let e0 = dbl.transform_point(eye);
-    ensure_r!(e0.x.abs() <= tol && e0.y.abs() <= tol && e0.z.abs() <= tol, "decomposed-eye-not-to-origin", "Decomposed::look_at_lh sends the eye to {:?}", e0);
+    ensure_r!(e0.x.abs() <= te && e0.y.abs() <= te && e0.z.abs() <= te, "decomposed-eye-not-to-origin", "Decomposed::look_at_lh sends the eye to {:?}", e0);
     ensure_r!(dqr.scale == S::one() && dbl.scale == S::one(), "decomposed-scale", "look_at must not scale");
     Ok(())
 }
@@ -107,7 +119,7 @@ fn exact_3d(d: &mut Draw) -> Outcome {
     d.note("eye", &eye);
     d.note("dir", &dir);
     d.note("up", &up);
-    vcore::tryo!(all_entry_points(eye, dir, lam, up, Q::ZERO));
+    vcore::tryo!(all_entry_points(eye, dir, lam, up, Q::ONE, Q::ZERO));
     let nt = generic_entries(&v3(dir)) && generic_entries(&v3(up)) && all_nonzero(&[eye.x, eye.y, eye.z]) && beta != Q::ZERO;
     pass(if nt { "generic" } else { "degenerate" }, nt)
 }
@@ -115,7 +127,9 @@ fn exact_3d(d: &mut Draw) -> Outcome {
 fn f64_3d(d: &mut Draw) -> Outcome {
     let eye = Point3::from(f_vec3(d, -50.0, 50.0));
     let dn = f_unit3(d);
-    let len = d.f64_log(1e-2, 1e2);
+    // lengths over many orders of magnitude: the constructors normalise, so the statement is scale-free
+    let wide = d.chance(1, 3);
+    let len = if wide { d.f64_log(1e-30, 1e30) } else { d.f64_log(1e-2, 1e2) };
     let dir = Vector3::from(scale3(&dn, len));
     // up at least 0.05 rad away from +-dir
     let ang = d.f64_in(0.05, std::f64::consts::PI - 0.05);
@@ -126,7 +140,7 @@ fn f64_3d(d: &mut Draw) -> Outcome {
         let phi = d.f64_in(0.0, 2.0 * std::f64::consts::PI);
         [a[0] * phi.cos() + b[0] * phi.sin(), a[1] * phi.cos() + b[1] * phi.sin(), a[2] * phi.cos() + b[2] * phi.sin()]
     };
-    let ul = d.f64_log(1e-2, 1e2);
+    let ul = if wide { d.f64_log(1e-30, 1e30) } else { d.f64_log(1e-2, 1e2) };
     let up = Vector3::from([
         ul * (dn[0] * ang.cos() + p[0] * ang.sin()),
         ul * (dn[1] * ang.cos() + p[1] * ang.sin()),
@@ -136,9 +150,11 @@ fn f64_3d(d: &mut Draw) -> Outcome {
     d.note("dir", &dir);
     d.note("up", &up);
     d.note("angle(dir,up)", &ang);
-    let tol = 1e-11 * (1.0 + eye.to_vec().magnitude() + len + ul) / ang.sin();
-    vcore::tryo!(all_entry_points(eye, dir, dir.magnitude(), up, tol));
-    pass(if ang.sin() < 0.3 { "up-near-dir" } else { "generic" }, true)
+    // the eye is looked at from a distance comparable to |d| in the look_at forms: keep eye + d meaningful
+    let eye = if wide { Point3::new(eye.x * len.min(1e6), eye.y * len.min(1e6), eye.z * len.min(1e6)) } else { eye };
+    let tol = 1e-11 / ang.sin();
+    vcore::tryo!(all_entry_points(eye, dir, dir.magnitude(), up, up.magnitude(), tol));
+    pass(if wide { "wide-scale" } else if ang.sin() < 0.3 { "up-near-dir" } else { "generic" }, true)
 }
 
 fn exact_2d(d: &mut Draw) -> Outcome {
@@ -174,7 +190,9 @@ fn exact_2d(d: &mut Draw) -> Outcome {
 
 fn f64_2d(d: &mut Draw) -> Outcome {
     let phi = d.f64_in(-3.2, 3.2);
-    let len = d.f64_log(1e-2, 1e2);
+    // lengths over many orders of magnitude: the constructors normalise, so the statement is scale-free
+    let wide = d.chance(1, 3);
+    let len = if wide { d.f64_log(1e-30, 1e30) } else { d.f64_log(1e-2, 1e2) };
     let dir = Vector2::new(len * phi.cos(), len * phi.sin());
     let off = d.f64_in(0.05, std::f64::consts::PI - 0.05) * if d.bool() { 1.0 } else { -1.0 };
     let ul = d.f64_log(1e-2, 1e2);
@@ -199,7 +217,7 @@ pub fn property() -> Property {
         };
     }
     add!("look_3d-Q", "Q", exact_3d, 3000, 200_000, 48, &[("generic", 100)], "eye, dir, up each with non-zero (dir, up: pairwise distinct) components; up not perpendicular to dir");
-    add!("look_3d-f64", "f64", f64_3d, 4000, 200_000, 48, &[("generic", 200), ("up-near-dir", 50)], "every generated triple (up at least 0.05 rad from +-dir)");
+    add!("look_3d-f64", "f64", f64_3d, 4000, 200_000, 64, &[("generic", 200), ("up-near-dir", 50), ("wide-scale", 150)], "every generated triple (up at least 0.05 rad from +-dir)");
     add!("look_2d-Q", "Q", exact_2d, 4000, 200_000, 24, &[("up-left", 100), ("up-right", 100)], "up not parallel to dir; dir not axis-aligned");
     add!("look_2d-f64", "f64", f64_2d, 4000, 200_000, 24, &[("up-left", 100), ("up-right", 100)], "every generated pair");
     Property {
